@@ -512,17 +512,30 @@ namespace {
             ev.set("derived", static_cast<long>(ic.scope().size())).set("elements", static_cast<long>(ic.scope().elements().size()));
             std::cout << vj::dump(ev) << "\n";
          }
-         {  // template: parameters()/result() against mapping()
-            impl::Warehouse<ipr::Type> wh;
-            auto t = st.unit.global_scope()->make_primary_template(st.name(), lx.get_forall(lx.get_product(wh), lx.int_type()));
-            auto m = lx.make_mapping(*st.unit.global_region(), ipr::Mapping_level{1});
-            m->param(st.name(), lx.int_type());
-            m->body = lx.make_phantom();
-            t->init = m;
-            const ipr::Template& it = *t;
-            auto e1 = derived("template_parameters"); e1.set("same", &it.parameters() == &it.mapping().parameters()); std::cout << vj::dump(e1) << "\n";
-            auto e2 = derived("template_result"); e2.set("same", &it.result() == &it.mapping().result()); std::cout << vj::dump(e2) << "\n";
-         }
+         // template: parameters()/result() against mapping(), for a template declared once or twice, with no definition recorded
+         // for the declaration set, or the first, or the last declaration recorded as the definition
+         for (int ndecl : {1, 2})
+            for (int def : {0, 1, 2}) {
+               if (def > ndecl) continue;
+               impl::Warehouse<ipr::Type> wh;
+               auto& nm = st.name();
+               auto& fa = lx.get_forall(lx.get_product(wh), lx.int_type());
+               std::vector<impl::Template*> ts;
+               for (int k = 0; k < ndecl; ++k) {
+                  auto t = st.unit.global_scope()->make_primary_template(nm, fa);
+                  auto m = lx.make_mapping(*st.unit.global_region(), ipr::Mapping_level{1});
+                  m->param(st.name(), lx.int_type());
+                  m->body = lx.make_phantom();
+                  t->init = m;
+                  ts.push_back(t);
+               }
+               if (def != 0) ts[0]->decl_data.master_data->def = ts[static_cast<std::size_t>(def == 1 ? 0 : ndecl - 1)];
+               for (auto t : ts) {
+                  const ipr::Template& it = *t;
+                  auto e1 = derived("template_parameters"); e1.set("same", &it.parameters() == &it.mapping().parameters()); std::cout << vj::dump(e1) << "\n";
+                  auto e2 = derived("template_result"); e2.set("same", &it.result() == &it.mapping().result()); std::cout << vj::dump(e2) << "\n";
+               }
+            }
          {  // parameter: default_value() is initializer(), absent and present
             auto m = lx.make_mapping(*st.unit.global_region(), ipr::Mapping_level{0});
             auto p = m->param(st.name(), lx.int_type());
